@@ -4,7 +4,65 @@ import json, os
 HERE = os.path.dirname(os.path.dirname(os.path.abspath(__file__)))
 
 K = "bounded symbolic execution of the real Rust code with Kani 0.68 / CBMC 6.11 (SAT, CaDiCaL): kani::any() inputs, inductive step from an arbitrary valid state, counterexamples replayed natively"
+KM = K + "; float `%` path: nightly MIR -> SMT-LIB2 (QF_FPBV) decided by z3 and cvc5"
+SL = "; relational float obligations are cut into 2^16-phase slice families (quick: boundary + VERIF_SEED slices, thorough: all 256)"
 CLAIMED = {
+ "C01": dict(text="Solver verdicts over every counter value (2^24) and every f32 level for range, phase-wise bounds, exact joint levels and 0.5% curve fidelity of the normalised segments (oracle curve generated at run time); monotonicity within a phase on 2^16-phase slices of both tables. Inductive over histories: tick() is shown to store calc_value() of a state satisfying the invariant, from any state satisfying it.",
+   note="Monotonicity is decided for the normalised curves (start 0 / 1); for stretched segments it rests on value = start + (target-start)*normalised being one affine float expression (monotone rounding). Quick covers boundary and seeded slices, thorough all 2^24 positions. Reference RC curves come from lib/oracle.py (documented formula, Python math.exp).",
+   tech=K+SL, ref="§4 C01"),
+ "C02": dict(text="One-step transition relation of tick()/gate_on()/gate_off() from an arbitrary valid envelope state with symbolic sample rate and times (phase order, guards, frame conditions), the exact counter relation incl. increments of several cycles per tick, and increment accuracy per fixed sample rate with times on a 1/1024 s grid, which yields the stated duration window by a two-line calculation.",
+   note="Duration is derived: phase ends on tick ceil(2^24/inc) (counter relation, proved for every inc) and inc lies in the window proved on the time grid for 5 (quick) / 13 (thorough) sample rates; off-grid times and other rates are outside the claim. Histories are covered by induction on the one-step relation.",
+   tech=K, ref="§4 C02"),
+ "C03": dict(text="Continuity decomposed into solver-decided facts: output equals the exact table interpolant within 2^-23 and adjacent counter values differ by at most steepest-slope*step+2ulp (slices of both tables), table endpoint/slope facts through the code's constants, exact hand-over levels at every segment joint, and gate events that restart the curve exactly at the level being output.",
+   note="Per-tick bound for arbitrary increments follows from interpolant+slope facts by the triangle inequality (2*2^-23 slack); scaling to stretched segments is the affine expression argument of C01. Quick = boundary + seeded slices.",
+   tech=K+SL, ref="§4 C03"),
+ "C04": dict(text="Inductive step per note event against an executable reference model (ordered list of outstanding note-ons): from ANY valid receiver state with up to K held notes (K=8 quick, 32 thorough), one note-on / note-off / All-Notes-Off leaves gate, note by priority, velocity and the held list equal to the model.",
+   note="Handlers are driven directly (handle_note_on/off); that parse() calls the right handler with the right arguments after the right byte is C06's framing harness; both compose to the stream-level claim. Lists longer than the tier's K are outside the quick claim.",
+   tech=K, ref="§4 C04"),
+ "C05": dict(text="Same inductive steps with the edge latches in the model (set exactly on a gate change, cleared by the opposite event), plus getters that return-and-clear only their own latch; 'exactly once' follows by induction over messages and polls.",
+   note="As C04. The CC123 arm of parse() is real code in its harness; note handlers it never reaches are stubbed there to keep the other match arms small.",
+   tech=K, ref="§4 C05"),
+ "C06": dict(text="Differential check of the real parser+dispatch against a MIDI 1.0 running-status reference decoder: arbitrary parser state (symbolic 2-byte prefix) then N arbitrary bytes (N=4 quick, 7 thorough), every observable output compared after every byte; channel isolation and unsupported types in a separate all-inputs harness.",
+   note="In the framing harness the two note handlers are replaced by call loggers (Kani stubs): what is compared is which handler ran with which arguments in which order plus all controller outputs; handler effects are C04/C05's steps, and an end-to-end harness with the real handlers cross-checks one complete message (thorough). Streams longer than 2+N bytes are covered inductively over the parser state (every parser state is reachable by a 2-byte prefix: inspection of midi-convert 0.1.3).",
+   tech=K+"; Kani function stubbing for handler call logging", ref="§4 C06"),
+ "C07": dict(text="From any quantizer state (all 4095 scales, any cached note 0..131 or power-on) and any f32 input incl. NaN/inf the reported pitch class is allowed now; allow/forbid with arbitrary slices keep the scale non-empty with the documented last-note rule; a two-call history convert-forbid-convert through the public API.",
+   note="Loop bounds: octave loop 3, note loop 12 (unwindset discovered per build, unwinding assertions on).",
+   tech=K, ref="§4 C07"),
+ "C08": dict(text="All 4095 scales x every f32 input, in 11 octave slices, against the nearest-allowed-note rule evaluated in exact integer arithmetic (units of 1/12 microvolt) with the stated 10 microvolt tie tolerance.",
+   note="Monotonicity in v is a consequence of the rule (same rule in every octave), not separately queried.",
+   tech=K, ref="§4 C08"),
+ "C09": dict(text="One conversion from any state with history: inside the widened window with the cached note still allowed the note is kept; otherwise the record equals that of a second, history-free real quantizer on the same input (differential); window edges in f64 with a 1 microvolt don't-care band.",
+   note="The sequence-level consequences (one change under small noise, monotone sequences) follow from this step and C08's rule.",
+   tech=K, ref="§4 C09"),
+ "C10": dict(text="All 2^24 phase values: exact equality of saw/square/triangle with their references (f64, exact), range of all shapes, sine within the stated 0.0125 of sin(2*pi*phase) for every phase of each table cell (oracle generated at run time), get() leaves the oscillator bit-identical.",
+   note="Sine fidelity is decided as |y - sin(cell midpoint)| <= 0.0125 - max in-cell deviation, a sufficient condition slightly stricter than the statement.",
+   tech=K, ref="§4 C10"),
+ "C11": dict(text="Counter-level arithmetic for every state/increment (tick, reset, set_frequency frame), increment accuracy per fixed sample rate on two 16-bit frequency grids, and set_phase for EVERY finite f32 via the MIR->SMT engine (range, fractional part within 2^-22 cycle, negative mirror).",
+   note="CBMC's f32 remainder is wrong, so set_phase is never decided with Kani. 'Depends only on p modulo 1' is established as: negative p equals its mirror exactly, and non-negative p yields frac(p) within 2^-22. z3 may time out on the fraction query; it is then decided by cvc5 alone and reported so. Translator validated on 20 inputs against the native function each run.",
+   tech=KM, ref="§4 C11"),
+ "C12": dict(text="Triangle: exact integer reference + Lipschitz fact for every phase and every increment. Sine: output equals the wrapping table interpolant within 2^-23 and adjacent phases differ by <= 2*pi*1.002*step+2ulp on slices (incl. the wrap), table slope facts for all cells, and an all-phase betweenness query.",
+   note="Larger increments follow from interpolant+slope facts (triangle inequality, 2*2^-23 slack). Quick = boundary + seeded slices of the sine; thorough all 256.",
+   tech=K+SL, ref="§4 C12"),
+ "C13": dict(text="Every time setting installs a legal one-pole low-pass (weights >= 0 summing to 1, pole in [0,1)) for any f32 t in [0,10] at fixed sample rates, and one step of the real biquad with ARBITRARY legal coefficients and arbitrary state is a convex combination whose held-input error keeps its sign and does not grow; induction gives the range and no-ringing claims for all input sequences and set_time schedules.",
+   note="tan is foreign code (libm via std): replaced by a contract (convex envelope, 256 segments, plus a 1.5e-7 linearisation at pi/4). Signals in the step harness lie on a 2^-8 grid in [-1,1]. 'Settles on it' is claimed as pole < 1 and monotone approach, not as a limit. Long-run gain error of the f32 filter (weights sum to 1 within 2.4e-7) is the 'f32 resolution of the filter'.",
+   tech=K+"; Kani stub with contract for the foreign tanf", ref="§4 C13"),
+ "C14": dict(text="Dead band, clamps and pole placement decided at the coefficient level: set_time ignored iff within 0.05 s, t<2/fs equals t=0 with pole <= 0.25, t>10 equals t=10, and for N=t*fs>=100 the pole satisfies 5.298/N <= 1-p, (1-p)/p <= 7.666/N on a 1/1024 s grid per fixed rate.",
+   note="The step-response percentages follow from the pole window and the closed form error = (1-b0)*p^n of a one-pole recurrence (stated assumption; its single step is C13's harness); N-step responses are not unrolled. tan replaced by its contract.",
+   tech=K+"; Kani stub with contract for the foreign tanf", ref="§4 C14"),
+ "C15": dict(text="Inductive step of poll() from any state consistent with an unbroken run of any length against a run-length model (three capacities: 18, 35, 171), plus bounded public-API histories with a symbolic in/out-of-range pattern at small capacities.",
+   note="Histories at capacity 4 (quick) and 9 (thorough); larger capacities by the inductive step (the code is generic in the capacity).",
+   tech=K, ref="§4 C15"),
+ "C16": dict(text="Public-API differential at 1 kHz: value in [0,1], between corrected min and max of the contributing samples, bit-identical to a second real controller that saw a different earlier press and different excluded newest samples, monotone in each contributing sample, retained after lift; resistor triples keep the corrected mean in range.",
+   note="Samples on a 2^-10 grid; capacity 18 only (larger capacities multiply the float-sum query beyond reach and are outside the claim).",
+   tech=K, ref="§4 C16"),
+ "C17": dict(text="Kani's built-in checks (overflow, index, division, unwrap, debug_assert, casts) over every harness that drives a public operation with symbolic arguments from an arbitrary valid state, plus public-API call sequences per module and the progress argument (increment >= 1, tick advances or ends the phase).",
+   note="Dev-profile semantics (overflow checks and debug assertions on). set_phase is covered by the MIR->SMT range query (C11). Glide at fixed sample rates with tan contract.",
+   tech=K, ref="§4 C17"),
+ "C18": dict(text="One controller or pitch-bend message with any number/value from any receiver state against the documented routing table; strict monotonicity and end points of value/127 and of the 14-bit bend over all values.",
+   note="Note handlers stubbed (irrelevant to controller messages) to keep the dispatch match small.",
+   tech=K, ref="§4 C18"),
+ "C19": dict(text="One conversion from any state, any scale, any f32: stairstep == note/12, stairstep+fraction reproduces the input within 2 ulp (or the clamped value outside the range), fraction ranges for chromatic/no-history and kept-note cases.",
+   note="As C07 for loop bounds.", tech=K, ref="§4 C19"),
  "C20": dict(
    text="Solver verdict over all 2^32 f32 bit patterns of both clamping conversions, all 256 u8 note/channel values, and an arbitrary-state two-copy equivalence for out-of-range envelope inputs; exhaustive within the stated domain, no unwinding involved.",
    note="Trusts rustc/Kani codegen and CBMC's IEEE-754 max/min encoding (cross-checked by an independent MIR->SMT encoding decided with z3 and cvc5). 'Behaves identically' is established as bit-identical envelope state after set_input, which determines all later behaviour because the code is deterministic.",
@@ -45,7 +103,7 @@ def main():
         "engines": [
             {"name": "kani-cbmc", "path": "/verif/lib/kanirun.py", "serves_properties": sorted(CLAIMED),
              "kind_free_text": "Kani 0.68 proof harnesses (/verif/harness/*.rs) compiled together with /repo/src and decided by CBMC 6.11 + CaDiCaL"},
-            {"name": "mir-smt", "path": "/verif/lib/mirsmt.py", "serves_properties": [p for p in sorted(CLAIMED) if "MIR" in CLAIMED[p]["tech"]],
+            {"name": "mir-smt", "path": "/verif/lib/mirsmt.py", "serves_properties": ["C11", "C20"],
              "kind_free_text": "symbolic execution of the nightly compiler's MIR of loop-free functions into SMT-LIB2 (QF_FPBV), decided by z3 and cvc5"},
         ],
         "checks": checks,
